@@ -6,10 +6,10 @@ CONSTANTS
   W = 2
   D = 2
   MaxMsgs = 3
-  RxDeltas <- RxBack
-  Delays <- DelaysFull
-  CtrlDelays = {5}
-  IndexMode = "pos"
+  RxDeltas = {0, 1}
+  Delays = {0, 2, 5}
+  CtrlDelays = {}
+  IndexMode = "zero"
   Record = TRUE
 INVARIANTS EmitScn
 CHECK_DEADLOCK FALSE
